@@ -38,13 +38,13 @@ def hash_from_key(prog, fn, op, key_param):
     for o in os_:
         if not (o.kind == "call" and (o.data.get("callee") or "").endswith("semtype::HashValue::new")):
             return False
-        inner = origins(prog, fn, o.data["args"][0])
+        inner = origins(prog, fn, o.data["args"][0], at=o.block)
         if not inner:
             return False
         for i in inner:
             if not (i.kind == "call" and i.data.get("callee") == "abyssiniandb::HashValue::hash_value"):
                 return False
-            k = origins(prog, fn, i.data["args"][0])
+            k = origins(prog, fn, i.data["args"][0], at=i.block)
             if not (k and all(x.kind == "param" and x.data == key_param and not x.proj for x in k)):
                 return False
     return True
@@ -71,10 +71,10 @@ def check_lookup(ctx, prog, R, fn):
     ctx.check(bool(somes), "lookup-by-full-key", "some-exists", "the lookup never returns Some", where=where(fn))
     equal_entries = []
     for b, t in cmps:
-        a0 = origins(prog, fn, t["args"][0])
+        a0 = origins(prog, fn, t["args"][0], at=b)
         ctx.check(bool(a0) and all(o.kind == "param" and o.data == 3 for o in a0), "lookup-by-full-key", "cmp-self-is-callers-key",
                   "cmp_u8 is not applied to the caller's key (%s)" % a0, where=where(fn, b))
-        a1 = origins(prog, fn, t["args"][1])
+        a1 = origins(prog, fn, t["args"][1], at=b)
         ctx.check(bool(a1) and all(is_role_origin(prog, R, fn, o, "KEY_BYTES_AT") for o in a1), "lookup-by-full-key", "cmp-arg-is-stored-key",
                   "the bytes compared with the caller's key are not the stored key bytes read at the candidate offset (%s)" % a1,
                   where=where(fn, b), expected="result of %s" % bytes_at.name)
@@ -93,24 +93,24 @@ def check_lookup(ctx, prog, R, fn):
     def cand_ok(os_):
         return bool(os_) and all(is_role_origin(prog, R, fn, o, "HEAD_READ") or is_role_origin(prog, R, fn, o, "NEXT_AT") for o in os_)
     for b, t in calls_to(prog, fn, target_fn=bytes_at) + calls_to(prog, fn, target_fn=next_at):
-        os_ = origins(prog, fn, t["args"][1])
+        os_ = origins(prog, fn, t["args"][1], at=b)
         ctx.check(cand_ok(os_) and any(is_role_origin(prog, R, fn, o, "HEAD_READ") for o in os_), "lookup-chain", "candidate@%s" % t["callee"].rsplit("::", 1)[-1],
                   "the offset examined by the lookup does not come from the bucket head / the previous record's next link (%s)" % os_, where=where(fn, b))
     hr = calls_to(prog, fn, target_fn=head_read)
     ctx.check(len(hr) == 1, "lookup-chain", "one-head-read", "expected one bucket-head read in the lookup, found %d" % len(hr), where=where(fn))
     for b, t in hr:
-        os_ = origins(prog, fn, t["args"][1])
+        os_ = origins(prog, fn, t["args"][1], at=b)
         ctx.check(bool(os_) and all(o.kind == "param" and o.data == 2 for o in os_), "lookup-chain", "head-of-callers-hash",
                   "the bucket head is not read with the hash the caller passed", where=where(fn, b))
     ctx.check(len(calls_to(prog, fn, target_fn=next_at)) >= 1, "lookup-chain", "advance-exists", "the lookup never follows a next link", where=where(fn))
     # returned pair is (current, previous)
     for b, s in ret_agg_blocks(fn, "core::option::Option", "Some"):
-        tup = origins(prog, fn, s["rhs"]["ops"][0])
+        tup = origins(prog, fn, s["rhs"]["ops"][0], at=b)
         for o in tup:
             if o.kind == "agg" and o.data.get("agg") == "tuple" and len(o.data["ops"]) == 2:
                 cur = origins(prog, fn, o.data["ops"][0])
                 prv = origins(prog, fn, o.data["ops"][1])
-                zero = lambda x: x.kind == "call" and (x.data.get("callee") or "").endswith("::new") and const_origin(origins(prog, fn, x.data["args"][0])) == 0
+                zero = lambda x: x.kind == "call" and (x.data.get("callee") or "").endswith("::new") and const_origin(origins(prog, fn, x.data["args"][0], at=x.block)) == 0
                 ctx.check(cand_ok(cur), "lookup-result", "current", "first component of the lookup result is not the matched candidate offset (%s)" % cur, where=where(fn, b))
                 ctx.check(bool(prv) and any(zero(x) for x in prv) and all(zero(x) or is_role_origin(prog, R, fn, x, "HEAD_READ") or is_role_origin(prog, R, fn, x, "NEXT_AT") for x in prv),
                           "lookup-result", "previous", "second component of the lookup result is not the previously examined offset (zero for the chain head) (%s)" % prv, where=where(fn, b))
@@ -121,11 +121,11 @@ def check_lookup(ctx, prog, R, fn):
     reads = calls_to(prog, bytes_at, callee="rabuf::SmallRead::read_exact_maybeslice")
     ctx.check(len(reads) == 1, "stored-key-read", "one-read", "expected one payload read in %s" % bytes_at.name, where=where(bytes_at))
     for b, t in reads:
-        os_ = chase(prog, bytes_at, origins(prog, bytes_at, t["args"][1]))
+        os_ = chase(prog, bytes_at, origins(prog, bytes_at, t["args"][1], at=b))
         ctx.check(bool(os_) and all(is_role_origin(prog, R, bytes_at, o, "R_KEY_LEN") for o in os_), "stored-key-read", "length-is-stored-length",
                   "the number of key bytes compared is not the stored key length (%s): a prefix or over-long compare" % os_, where=where(bytes_at, b))
     seeks = [(b, t) for b, t in bytes_at.calls() if (t.get("callee") or "").endswith("::seek_skip_to_piece_key") or (t.get("callee") or "").endswith("::seek_from_start")]
-    ok = bool(seeks) and all(all(o.kind == "param" and o.data == 2 for o in origins(prog, bytes_at, t["args"][1])) for b, t in seeks)
+    ok = bool(seeks) and all(all(o.kind == "param" and o.data == 2 for o in origins(prog, bytes_at, t["args"][1], at=b)) for b, t in seeks)
     ctx.check(ok and all(bytes_at.dominates(seeks[0][0], b) for b, _ in reads), "stored-key-read", "at-given-offset",
               "the stored key is not read at the offset that was passed in", where=where(bytes_at))
     ctx.sample({"rule": "lookup", "fn": fn.id, "equal_arm_entries": equal_entries, "some_blocks": somes})
@@ -147,7 +147,7 @@ def check_ops(ctx, prog, R, eff, lookup):
         for b, t in lk:
             ctx.check(hash_from_key(prog, fn, t["args"][1], 2), "hash-origin", m + ":lookup",
                       "the hash given to the lookup in %s is not hash_value() of the key parameter" % m, where=where(fn, b))
-            k = origins(prog, fn, t["args"][2])
+            k = origins(prog, fn, t["args"][2], at=b)
             ctx.check(bool(k) and all(o.kind == "param" and o.data == 2 for o in k), "hash-origin", m + ":lookup-key",
                       "the key given to the lookup in %s is not the key parameter" % m, where=where(fn, b))
         for role in ("HEAD_READ", "HEAD_WRITE"):
@@ -182,15 +182,15 @@ def check_ops(ctx, prog, R, eff, lookup):
             forbid(may_n, set(STORAGE_ROLES), "not-found")
             lv = R.get("LOAD_VALUE")
             for b, t in (calls_to(prog, fn, target_fn=lv) if lv else []):
-                os_ = origins(prog, fn, t["args"][1])
+                os_ = origins(prog, fn, t["args"][1], at=b)
                 ctx.check(bool(os_) and all(is_call_to(prog, fn, o, lookup) and o.proj[-1:] == ("f:0",) for o in os_), "op-wiring", "get_kt:found:value-of-found-key",
                           "get loads the value of an offset that is not the found key record (%s)" % os_, where=where(fn, b))
             if lv:
                 ctx.touch(lv)
                 vr = calls_to(prog, lv, target_fn=R.need("VAL_READ"))
-                okv = len(vr) == 1 and all(is_role_origin(prog, R, lv, o, "KEY_VALOFF") for o in origins(prog, lv, vr[0][1]["args"][1]))
+                okv = len(vr) == 1 and all(is_role_origin(prog, R, lv, o, "KEY_VALOFF") for o in origins(prog, lv, vr[0][1]["args"][1], at=vr[0][0]))
                 ko = calls_to(prog, lv, target_fn=R.need("KEY_VALOFF"))
-                okk = len(ko) == 1 and all(o.kind == "param" and o.data == 2 for o in origins(prog, lv, ko[0][1]["args"][1]))
+                okk = len(ko) == 1 and all(o.kind == "param" and o.data == 2 for o in origins(prog, lv, ko[0][1]["args"][1], at=ko[0][0]))
                 ctx.check(okv and okk, "op-wiring", "load_value:key->value", "the value loaded for a key record is not read at the value offset stored in that record", where=where(lv))
             _returns_none(ctx, prog, fn, rn, m)
         elif m == "put_kt":
@@ -216,7 +216,7 @@ def check_ops(ctx, prog, R, eff, lookup):
             # returned value was read before the value record was freed
             vfree = [b for b, t in calls_to(prog, fn, target_fn=R.need("VAL_FREE"))]
             for b, s in ret_agg_blocks(fn, "core::option::Option", "Some"):
-                os_ = origins(prog, fn, s["rhs"]["ops"][0])
+                os_ = origins(prog, fn, s["rhs"]["ops"][0], at=b)
                 ok = bool(os_) and all(is_role_origin(prog, R, fn, o, "VAL_READ") for o in os_)
                 ok = ok and all(fn.dominates(o.block, vb) for o in os_ for vb in vfree)
                 ctx.check(ok, "op-wiring", "del_kt:found:returns-value-read-before-free",
@@ -261,7 +261,7 @@ def _returns_none(ctx, prog, fn, region, m):
     vals = []
     for b, s in ret_agg_blocks(fn, "core::result::Result", "Ok"):
         if b in region:
-            os_ = origins(prog, fn, s["rhs"]["ops"][0])
+            os_ = origins(prog, fn, s["rhs"]["ops"][0], at=b)
             vals.append(all(o.kind == "agg" and o.data.get("variant") == "None" for o in os_) and bool(os_))
     ctx.check(vals == [True], "op-wiring", m + ":not-found:returns-none",
               "%s does not return Ok(None) on the not-found arm" % m, where=where(fn))
